@@ -73,7 +73,18 @@ impl<'a> PrettyPrinter<'a> {
         }
 
         let import_items_doc = self.convert_import_items(ctx, import_items_nodes);
-        prefix_doc + self.arena.space() + import_items_doc
+        // A line comment that ends the prefix must keep its line to itself.
+        let ends_with_line_comment = prefix_part
+            .iter()
+            .rev()
+            .find(|node| node.kind() != SyntaxKind::Space)
+            .is_some_and(|node| node.kind() == SyntaxKind::LineComment);
+        let sep = if ends_with_line_comment {
+            self.arena.hardline()
+        } else {
+            self.arena.space()
+        };
+        prefix_doc + sep + import_items_doc
     }
 
     fn convert_import_items(
